@@ -24,6 +24,9 @@
  *           bit 5 (32): HWLOC_XML_VERBOSE=1 (the importer's diagnostics, which print document strings)
  *           bit 6 (64): HWLOC_HIDE_ERRORS=0 (critical-error reports such as the out-of-order XML message)
  *           bit 7 (128): the backend is selected through HWLOC_LIBXML instead of HWLOC_LIBXML_IMPORT/_EXPORT
+ *           bit 8 (256): print "shape <canonical tree>" for the raw object tree the XML backend hands to the core
+ *                      (phase-boundary hook of hwloc_discover, before any post-processing): types after
+ *                      conversion, children of the four lists merged and sorted, for the import model
  *           bit 4 (16): after a failed load the topology is re-configured with a valid XML buffer (with cpukinds,
  *                      memattr, distances) instead of a synthetic description
  * Every job runs in a forked child limited to HWV_WATCHDOG (default 5) seconds of CPU time (SIGXCPU = 24)
@@ -289,6 +292,30 @@ static void battery(hwloc_topology_t t)
   }
 }
 
+extern void (*hwloc_verif_phase_cb)(struct hwloc_topology *topology, int phase);
+static int shape_cmp(const char **a, const char **b) { return strcmp(*a, *b); }
+/* canonical rendering of the raw tree: type(sorted children) */
+static char *shape_of(hwloc_obj_t o)
+{
+  char **ks = NULL; unsigned n = 0, cap = 0, i; size_t tot = 32; hwloc_obj_t c; char *r; int lists;
+  for (lists = 0; lists < 4; lists++)
+    for (c = lists == 0 ? o->first_child : lists == 1 ? o->memory_first_child : lists == 2 ? o->io_first_child : o->misc_first_child; c; c = c->next_sibling) {
+      if (n == cap) { cap = cap ? 2 * cap : 8; ks = realloc(ks, cap * sizeof(*ks)); }
+      ks[n] = shape_of(c); tot += strlen(ks[n]) + 1; n++;
+    }
+  if (n > 1) qsort(ks, n, sizeof(*ks), (int (*)(const void *, const void *)) shape_cmp);
+  r = malloc(tot);
+  sprintf(r, "%d(", (int) o->type);
+  for (i = 0; i < n; i++) { if (i) strcat(r, ","); strcat(r, ks[i]); free(ks[i]); }
+  strcat(r, ")");
+  free(ks);
+  return r;
+}
+static void shape_cb(struct hwloc_topology *topology, int ph)
+{
+  if (ph == 1) { char *s = shape_of(hwloc_get_root_obj(topology)); printf("shape %s\n", s); fflush(stdout); free(s); hwloc_verif_phase_cb = NULL; }
+}
+
 /* a valid document with 2 PUs, distances, a memattr and two cpukinds: the source of the "load again" step (opts & 16) */
 static const char reload_xml[] =
   "<?xml version=\"1.0\" encoding=\"UTF-8\"?>\n<!DOCTYPE topology SYSTEM \"hwloc2.dtd\">\n<topology version=\"3.0\">\n"
@@ -317,6 +344,7 @@ static int do_topo(const char *backend, const char *method, unsigned long tflags
   if (tflags) printf("flags rc=%d\n", hwloc_topology_set_flags(t, tflags));
   if (ud) hwloc_topology_set_userdata_import_callback(t, ud_cb);
   if (opts & 4) hwloc_topology_set_all_types_filter(t, HWLOC_TYPE_FILTER_KEEP_ALL);
+  if (opts & 256) hwloc_verif_phase_cb = shape_cb;
   phase("set");
   errno = 0;
   if (!strcmp(method, "file")) {
@@ -345,6 +373,7 @@ static int do_topo(const char *backend, const char *method, unsigned long tflags
     phase("load");
     errno = 0;
     rc = hwloc_topology_load(t);
+    hwloc_verif_phase_cb = NULL;     /* the shape is that of this load only, not of the reload below */
     printf("load rc=%d errno=%s\n", rc, rc < 0 ? hwv_errno_class(errno) : "0");
   } else rc = -2;
   if (rc == 0) {
